@@ -445,8 +445,123 @@ def r02l(prog: Program, chk: Check) -> None:
         chk.ob("R02.l", f"stacked_scopes::constraint-model::{k}", not bad, site, f"{counts[k]} applications, {len(bad)} failing" + (f"; smallest: {bad[0]}" if bad else ""), witness=bad[:5])
 
 
+# ------------------------------------------------------------------- R02.n
+def r02n(prog: Program, chk: Check) -> None:
+    import itertools
+
+    from ..minterp import AssertionFailed, Interp, ModelError, Obj, PyRaise, Unsupported
+
+    chk.rule(
+        "R02.n",
+        "the constraint carried by a condition's value asserts no more than the condition: stacked_scopes.extract_constraints with AndConstraint.make / OrConstraint.make is "
+        "interpreted from the AST on every value built from a plain value, values annotated with the atomic constraints a, b (or both) and unions of two or three of those, "
+        "plain or annotated again; read as propositional formulas (a value without constraint says nothing: True; annotations conjoin; the members of a union - `p or q`, a flag "
+        "assigned in two branches - disjoin), the extracted constraint is implied by the value's formula under every truth assignment, so a branch is never narrowed by a "
+        "disjunct that need not hold",
+        floor=2,
+    )
+    fn = prog.func("stacked_scopes", "extract_constraints")
+    and_make = prog.find_method("AndConstraint", "make")
+    or_make = prog.find_method("OrConstraint", "make")
+    if and_make is None or or_make is None:
+        raise AnchorError("AndConstraint.make / OrConstraint.make not found")
+    NULL = Obj("NullConstraint")
+    atoms = {n: Obj("Constraint", name=n) for n in "ab"}
+
+    def plain():
+        return ("plain",)
+
+    leaves = [("plain",), ("ann", ("plain",), ("a",)), ("ann", ("plain",), ("b",)), ("ann", ("plain",), ("a", "b"))]
+    unions = [("union", tuple(c)) for k in (2, 3) for c in itertools.product(leaves, repeat=k)]
+    values = leaves + unions + [("ann", u, (c,)) for u in unions[:: 3] for c in "ab"] + [("union", (u, l)) for u in [("ann", u2, ("a",)) for u2 in unions[:: 7]] for l in leaves]
+
+    def build(spec):
+        if spec[0] == "plain":
+            return Obj("TypedValue")
+        if spec[0] == "ann":
+            exts = [Obj("ConstraintExtension", constraint=atoms[c]) for c in spec[2]]
+            return Obj("AnnotatedValue", value=build(spec[1]), get_metadata_of_type=lambda typ, exts=exts: list(exts))
+        return Obj("MultiValuedValue", vals=tuple(build(x) for x in spec[1]))
+
+    def ref(spec, asg) -> bool:
+        if spec[0] == "plain":
+            return True
+        if spec[0] == "ann":
+            return all(asg[c] for c in spec[2]) and ref(spec[1], asg)
+        return any(ref(x, asg) for x in spec[1])
+
+    def sem(c, asg) -> bool:
+        if c is NULL:
+            return True
+        if c._kind == "Constraint":
+            return asg[c._attrs["name"]]
+        if c._kind == "AndConstraint":
+            return all(sem(x, asg) for x in c._attrs["constraints"])
+        if c._kind == "OrConstraint":
+            return any(sem(x, asg) for x in c._attrs["constraints"])
+        raise AnchorError(f"extract_constraints returned {c!r}")
+
+    def show(spec) -> str:
+        if spec[0] == "plain":
+            return "v"
+        if spec[0] == "ann":
+            return f"{show(spec[1])}[{' & '.join(spec[2])}]"
+        return "(" + " | ".join(show(x) for x in spec[1]) + ")"
+
+    def show_c(c) -> str:
+        if c is NULL:
+            return "no constraint"
+        if c._kind == "Constraint":
+            return c._attrs["name"]
+        return "(" + (" AND " if c._kind == "AndConstraint" else " OR ").join(show_c(x) for x in c._attrs["constraints"]) + ")"
+
+    def hook(v, cls):
+        if cls in ("AnnotatedValue", "MultiValuedValue", "OrConstraint", "AndConstraint", "Constraint"):
+            return isinstance(v, Obj) and v._kind == cls
+        return None
+
+    holder: List[Interp] = []
+    and_cls = Obj("class", __call__=lambda cs: Obj("AndConstraint", constraints=tuple(cs)))
+    or_cls = Obj("class", __call__=lambda cs: Obj("OrConstraint", constraints=tuple(cs)))
+    and_cls._attrs["make"] = lambda cs: holder[0].call_def(and_make[1], [and_cls, cs], and_make[1])  # type: ignore[index]
+    or_cls._attrs["make"] = lambda cs: holder[0].call_def(or_make[1], [or_cls, cs], or_make[1])  # type: ignore[index]
+    for a in atoms.values():
+        a._attrs["invert"] = lambda a=a: Obj("Constraint", name="not " + a._attrs["name"])
+    unsound, crashes = [], []
+    n = 0
+    for spec in values:
+        it = Interp({}, {}, (), {"id": lambda args: id(args[0])}, hook, {}, {"extract_constraints": fn}, {"NULL_CONSTRAINT": NULL, "AndConstraint": and_cls, "OrConstraint": or_cls, "ConstraintExtension": "ConstraintExtension"})
+        holder[:] = [it]
+        try:
+            res = it.call_def(fn, [build(spec)], fn)
+        except Unsupported as u:
+            raise AnchorError(f"extract_constraints cannot be modelled: {u}")
+        except (AssertionFailed, PyRaise, ModelError) as e:
+            crashes.append({"value": show(spec), "error": str(e)})
+            continue
+        for va, vb in itertools.product((False, True), repeat=2):
+            n += 1
+            asg = {"a": va, "b": vb}
+            if ref(spec, asg) and not sem(res, asg):
+                unsound.append({"condition value": show(spec), "extracted": show_c(res), "holds with": {k: v for k, v in asg.items()}, "but the extracted constraint is": False})
+                break
+    chk.model_evaluations += n
+    unsound.sort(key=lambda d: len(d["condition value"]))
+    site = prog.site("stacked_scopes", fn)
+    chk.ob("R02.n", "stacked_scopes::extract_constraints::the extracted constraint is implied by the condition", not unsound, site, f"{len(values)} values x 4 truth assignments, {len(unsound)} values whose constraint can be false while the condition holds" + (f"; smallest: {unsound[0]}" if unsound else ""), witness=unsound[:5])
+    chk.ob("R02.n", "stacked_scopes::extract_constraints::no-crash", not crashes, site, f"{len(crashes)} crashes" + (f"; first: {crashes[0]}" if crashes else ""), witness=crashes[:3])
+
+
+def r02m(prog: Program, chk: Check) -> None:
+    from .c01 import r01_j
+
+    r01_j(prog, chk, rule="R02.m")  # the sequence-pattern model of C01 R01.j, decided here for the narrowing clauses of C02
+
+
 def run(prog: Program, chk: Check) -> None:
     guard(chk, r02hi, prog, chk)
+    guard(chk, r02m, prog, chk)
+    guard(chk, r02n, prog, chk)
     guard(chk, r02j, prog, chk)
     guard(chk, r02k, prog, chk)
     guard(chk, r02l, prog, chk)
